@@ -729,7 +729,10 @@ fn whole_file(root: &str, name: &str, rel: &str, summary: &mut String) -> String
             need(&path, &rw, "dealloc", "call of the global allocator's `dealloc`");
         }
         "cell" => {
-            need(&path, &rw, "once_cell", "`once_cell` path");
+            // the once may be `once_cell`'s or be built from std atomics and locks: either is instrumented
+            if rw.hits.get("once_cell").copied().unwrap_or(0) + rw.hits.get("sync").copied().unwrap_or(0) < 1 {
+                need(&path, &rw, "once_cell", "`once_cell` or `std::sync` path");
+            }
             need(&path, &rw, "tracked-field", "`data: UnsafeCell<..>` field in `struct OnceInitCell`");
             need(&path, &rw, "tracked-new", "`data: UnsafeCell::new(..)` initialiser");
             need(&path, &rw, "tracked-read", "shared access through `.data.get()`");
